@@ -50,24 +50,8 @@ func (p *Prog) isOverflowGuard(s ast.Stmt, key string) bool {
 	if !ok || ifs.Init != nil {
 		return false
 	}
-	be, ok := ast.Unparen(ifs.Cond).(*ast.BinaryExpr)
-	if !ok || p.exprKey(be.X) != key {
-		return false
-	}
-	k, ok := p.constInt64(be.Y)
-	if !ok {
-		return false
-	}
-	switch be.Op {
-	case token.GTR:
-		if k != specMaxBiasedExp {
-			return false
-		}
-	case token.GEQ:
-		if k != specMaxBiasedExp+1 {
-			return false
-		}
-	default:
+	x, op, k, ok := p.normCmp(ifs.Cond)
+	if !ok || p.exprKey(x) != key || op != token.GTR || !k.IsInt64() || k.Int64() != specMaxBiasedExp {
 		return false
 	}
 	return blockLeaves(ifs.Body.List)
@@ -147,6 +131,19 @@ func ruleGuardCompose(c *Ctx) {
 							}
 						}
 					}
+				}
+			}
+			// the call sits on the in-range side of an if/else on the overflow condition
+			for _, f := range p.factsAt(full, func(st ast.Stmt) bool { return p.assignsTo(st, xkey) }) {
+				fx, fop, fk, ok := p.normCmp(f.cond)
+				if !ok || p.exprKey(fx) != xkey || !fk.IsInt64() || fk.Int64() != specMaxBiasedExp {
+					continue
+				}
+				if !f.val {
+					fop = negOp(fop)
+				}
+				if fop == token.LEQ {
+					guarded = true
 				}
 			}
 			for ci := len(chain) - 1; ci >= 0 && !guarded && !dirty; ci-- {
@@ -318,14 +315,14 @@ func g3Reviewed(p *Prog, fn string, fd *ast.FuncDecl, call *ast.CallExpr) (strin
 			return "Canonical: the exponent only moves toward the bias inside loops conditioned on `exp > bias` / `exp < bias`, so it stays between its decoded value and the bias", true
 		}
 	case "Decimal.PowWithMode":
-		if strings.HasSuffix(arg, fmt.Sprintf("+K(%d))", specBias)) {
+		if strings.Contains(arg, fmt.Sprintf("K(%d)+", specBias)) {
 			return "Pow sqrt-of-even-power shortcut: exp = ±(dExp-bias)/2 lies in -3088..3088, plus the bias is in range", true
 		}
 	case "Decimal.Compose":
 		body := env.canonStmts(fd.Body.List)
 		lo := fmt.Sprintf("for(;(P3<K(%d));){", -specBias)
 		hi := fmt.Sprintf("for(;(P3>K(%d));){", specMaxBiasedExp-specBias)
-		if strings.Contains(body, lo) && strings.Contains(body, hi) && strings.Contains(arg, fmt.Sprintf("+K(%d))", specBias)) {
+		if strings.Contains(body, lo) && strings.Contains(body, hi) && strings.Contains(arg, fmt.Sprintf("K(%d)+", specBias)) {
 			return "Compose: the two final loops bring the unbiased exponent into -6176..6111 (or return an error) before it is biased and narrowed", true
 		}
 	case "Decimal.add":
@@ -354,17 +351,12 @@ func (p *Prog) findReturnGuard(fd *ast.FuncDecl, varName string, op token.Token,
 	var node ast.Node
 	cnt := 0
 	found := false
-	ast.Inspect(fd.Body, func(n ast.Node) bool {
-		ifs, ok := n.(*ast.IfStmt)
-		if !ok || found {
-			return !found
-		}
-		for _, cj := range conjuncts(ifs.Cond) {
-			be, ok := cj.(*ast.BinaryExpr)
-			if !ok || be.Op != op {
+	try := func(cond ast.Expr, at ast.Node) {
+		for _, cj := range conjuncts(cond) {
+			x, nop, k, ok := p.normCmp(cj)
+			if !ok || !k.IsInt64() {
 				continue
 			}
-			x := ast.Unparen(be.X)
 			// allow int(x), int64(x)
 			if cv, ok := x.(*ast.CallExpr); ok && len(cv.Args) == 1 {
 				if tv, ok := p.Info.Types[cv.Fun]; ok && tv.IsType() {
@@ -374,19 +366,38 @@ func (p *Prog) findReturnGuard(fd *ast.FuncDecl, varName string, op token.Token,
 			if p.exprName(x) != varName {
 				continue
 			}
-			k, ok := p.constInt64(be.Y)
-			if !ok {
+			kv := k.Int64()
+			switch {
+			case op == token.LSS && nop == token.LEQ:
+				kv++ // x <= k  is  x < k+1
+			case op == token.GTR && nop == token.GTR:
+			default:
 				continue
 			}
-			if !blockLeaves(ifs.Body.List) && !strings.Contains(p.exprStr(ifs.Cond), "||") {
-				// allow flag-setting bodies (maxexp = true)
-			}
-			if cnt == nth {
-				res, node, found = k, ifs, true
+			if cnt == nth && !found {
+				res, node, found = kv, at, true
 			}
 			cnt++
 		}
-		return !found
+	}
+	ast.Inspect(fd.Body, func(n ast.Node) bool {
+		if found {
+			return false
+		}
+		switch x := n.(type) {
+		case *ast.IfStmt:
+			try(x.Cond, x)
+		case *ast.SwitchStmt:
+			if x.Tag == nil {
+				for _, cc := range x.Body.List {
+					cl := cc.(*ast.CaseClause)
+					for _, e := range cl.List {
+						try(e, cl)
+					}
+				}
+			}
+		}
+		return true
 	})
 	return res, node, found
 }
